@@ -21,6 +21,7 @@ RULE = (
     "and after the last event, NodeStart count of leaf nodes = function invocations + cache hits. Non-trivial: the "
     "stream has >= 2 node spans; distinct = (program shape, variant)."
     ' Cache backends whose k-th write OR k-th lookup fails.'
+    ' Also: map() with max_concurrency 0 / -1 (a rejected call or a whole span tree, never a mixture); two further processors that compare equal to each other, each owed the whole stream and one shutdown; a nested graph pausing in the step of a failing sibling.'
 )
 ASSUMPTIONS = ["PAUSED calls are outside the statement and are counted, not judged"]
 DECIDING = ["streams_checked", "events_checked"]
